@@ -308,7 +308,7 @@ class Celestial(Dynamics, metaclass=ABCMeta):
         """
         if len(times) < 2:
             raise ValueError("Must provide at least two times to integrate between")
-        if (current_time := times[0]) > (final_time := times[-1]):
+        if (current_time := times[0]) >= (final_time := times[-1]):
             raise ValueError("final_time must be > initial_time")
 
         # Save original shape of the input state
